@@ -486,6 +486,11 @@ def def_value(n: CFGNode, var: str) -> Optional[ast.AST]:
                 return it.context_expr
         return None
     if isinstance(a, ast.Assign):
+        # a, b = x, y  ->  the matching element
+        if len(a.targets) == 1 and isinstance(a.targets[0], (ast.Tuple, ast.List)) and isinstance(a.value, (ast.Tuple, ast.List)) and len(a.targets[0].elts) == len(a.value.elts):
+            for t, v in zip(a.targets[0].elts, a.value.elts):
+                if isinstance(t, ast.Name) and t.id == var:
+                    return v
         return a.value
     if isinstance(a, ast.AnnAssign):
         return a.value
